@@ -606,12 +606,12 @@ func (fv *FuncVerifier) heapClosure(h, H, alloc string) {
 		return
 	}
 	refs := fv.refTerms(elem, t, 0)
-	if len(refs) == 0 {
-		return
-	}
 	var cs []string
 	for _, r := range refs {
 		cs = append(cs, "(< "+r+" "+alloc+")")
+	}
+	if len(cs) == 0 {
+		return
 	}
 	body := cs[0]
 	if len(cs) > 1 {
